@@ -43,16 +43,15 @@ MCInit ==
 Log(op, api, m) == hist' = Append(hist, <<op, api, m>>)
 
 Go == Len(hist) <= MaxOps /\ Alive
-Styles(A(_, _), name) == Go /\ \E api \in 0..4, m \in {0, 1} : A(api, m) /\ Log(name, api, m)
 
 (* one sub-action per action of Cast.tla, so that TLC's coverage names each of them *)
-DoIntoArray == Styles(IntoArray, "into_array")
-DoFromArray == Styles(FromArray, "from_array")
-DoIntoComponent == Styles(IntoComponent, "into_component")
-DoTryFromComponent == Styles(TryFromComponent, "try_from_component")
-DoFromComponent == Styles(FromComponent, "from_component")
-DoIntoUint == Styles(IntoUint, "into_uint")
-DoFromUint == Styles(FromUint, "from_uint")
+DoIntoArray == Go /\ \E api \in 0..4, m \in {0, 1} : IntoArray(api, m) /\ Log("into_array", api, m)
+DoFromArray == Go /\ \E api \in 0..4, m \in {0, 1} : FromArray(api, m) /\ Log("from_array", api, m)
+DoIntoComponent == Go /\ \E api \in 0..4, m \in {0, 1} : IntoComponent(api, m) /\ Log("into_component", api, m)
+DoTryFromComponent == Go /\ \E api \in 0..4, m \in {0, 1} : TryFromComponent(api, m) /\ Log("try_from_component", api, m)
+DoFromComponent == Go /\ \E api \in 0..4, m \in {0, 1} : FromComponent(api, m) /\ Log("from_component", api, m)
+DoIntoUint == Go /\ \E api \in 0..4, m \in {0, 1} : IntoUint(api, m) /\ Log("into_uint", api, m)
+DoFromUint == Go /\ \E api \in 0..4, m \in {0, 1} : FromUint(api, m) /\ Log("from_uint", api, m)
 DoMapInPlace == Go /\ MapInPlace /\ Log("map", 0, 0)
 DoRefAsSlice == Go /\ RefAsSlice /\ Log("ref_as_slice", 1, 0)
 DoTrySliceAsRef == Go /\ TrySliceAsRef /\ Log("try_slice_as_ref", 1, 0)
